@@ -195,6 +195,36 @@ def align_correspondence(ck, n):
     return len(reqs), bad
 
 
+def live_round_trip(ck):
+    """failing-input search for `align_indices_involution`: the real reader-side then writer-side alignment on [0..n) for
+    every operator type of the live tables and every small arity that has the non-bias operands; Lean judges the result."""
+    from ethosu.vela.operation import TensorIndices
+    from ethosu.vela import reader_util
+    from ethosu.vela import tflite_mapping as tm
+
+    def cp(t):
+        return TensorIndices(list(t.ifms), list(t.weights), list(t.biases))
+
+    reqs, meta = [], []
+    for code, (op, _ser, ind) in tm.builtin_operator_map.items():
+        nng, wind = op.info.indices, tm.builtin_operator_inv_map[op][2]
+        need = [v for t in (ind, nng, wind) for v in t.ifms + t.weights]
+        allv = [v for t in (ind, nng, wind) for v in t.ifms + t.weights + t.biases] + [0]
+        for n in range(max(need, default=-1) + 1, max(allv) + 4):
+            try:
+                mid = reader_util.align_inputs_indices(cp(ind), cp(nng), list(range(n)))
+                got = "ok," + ",".join(map(str, reader_util.align_inputs_indices(cp(nng), cp(wind), mid)))
+            except IndexError:
+                got = "err:index"
+            except AssertionError:
+                got = "err:assert"
+            reqs.append(f"alignrt n={n} got={got}")
+            meta.append({"builtin_code": int(code), "op": op.name, "tflite_indices": list(map(list, ind)), "op_indices": list(map(list, nng)),
+                         "writer_indices": list(map(list, wind)), "operands": n, "real_result": got})
+    ans = ck.model(reqs, parallel=False)
+    return len(reqs), [m for m, a in zip(meta, ans) if a != "1"]
+
+
 def order_correspondence(ck, n):
     """the writer's tensor order: Python sorted() on (name, enumeration index) vs Model/OpIndices.writerOrder"""
     rng = ck.rng
@@ -319,6 +349,10 @@ def main():
     for r, e, a in bad_align[:3]:
         ck.violation(f"model of align_inputs_indices disagrees with the code: {r}: code {e} model {a}",
                      {"request": r, "code": e, "model": a}, found_input=False)
+    n_rt, bad_rt = live_round_trip(ck)
+    for m in bad_rt[:3]:
+        ck.violation(f"reader-then-writer operand alignment is not the identity for {m['op']} (builtin {m['builtin_code']}) with "
+                     f"{m['operands']} operands: {m['real_result']}", m, found_input=True)
     n_order, bad_order = order_correspondence(ck, 2000 if ck.thorough else 400)
     for r, e, a in bad_order[:3]:
         ck.violation(f"model of the writer's tensor order disagrees with sorted(): {r}: python {e} model {a}",
@@ -406,9 +440,10 @@ def main():
     ck.finish({
         "programs": programs,
         "disagreements_checked": rejected,
-        "evaluations": len(outs) + n_align + n_order,
+        "evaluations": len(outs) + n_align + n_order + n_rt,
         "distinct_nontrivial": len(nontrivial),
         "align_requests": n_align,
+        "live_table_round_trips": n_rt,
         "tensor_order_requests": n_order,
         "reread_compared": len(rr_lines),
         "unreached_branches": ["feature:" + w for w in missing],
